@@ -36,7 +36,7 @@ for _p, _b, _t in [("C03", 60, "abort oracle: observable state (full scans, inde
                    ("C14", 60, "seam monitor M-PIN: pin vector before/after every statement (success, refusal, abort)")]:
     PROPS[_p] = dict(driver={"C10": "sqlsim+crashsim", "C09": "sqlsim+consim", "C03": "sqlsim+consim"}.get(_p, "sqlsim"), budget=dict(quick=_b, thorough=1200), chunk=40 if _p != "C10" else 16,
                      rule=SQL_RULE + ("; second driver (alternating chunks): crashsim histories that contain CREATE TABLE operations, restarted from every crash image inside and around the DDL (table present iff its CREATE had returned, or all-or-nothing while in flight; catalog identity checked after every recovered image)" if _p == "C10" else "") + ("; second driver (alternating chunks): concurrent insert/delete/update callers under the seeded scheduler with the checkpoint and statistics tasks alive, then Shutdown() (which may catch those tasks in the middle of a pass), reopen, and the same rows must be there" if _p == "C09" else "") + ("; second driver (alternating chunks): concurrent multi-statement transactions under the seeded scheduler, 40% of them ending in an explicit abort and others aborted by a lock conflict in the middle of a statement: nothing an aborted transaction wrote is in the final table and every row it touched is what the committed transactions left" if _p == "C03" else ""),
-                     technique="deterministic simulation (sequential driver, restart fault injection) with reference model: " + _t,
+                     technique="deterministic simulation (sequential driver, restart fault injection) with reference model: " + _t + {"C03": "; plus concurrent transactions under the seeded scheduler (abort traces in the final state)", "C09": "; plus Shutdown() under the seeded scheduler while the checkpoint/statistics tasks are alive, then reopen", "C10": "; plus crash images cut inside and around CREATE TABLE from the recorded I/O trace"}.get(_p, ""),
                      assumptions=["single driver: statements of different transactions interleave at statement granularity only (sub-statement interleavings are the consim checks)",
                                   "multi-row VALUES lists and parenthesised predicates are not accepted by the SQL front end and are not generated"])
 for _p, _t in [("C06", "statement answers vs reference model, each history executed in two environments (map order / pool size / statistics timing) so that the plan chosen differs"),
